@@ -219,8 +219,28 @@ package jp
 //@     && add != nil && sub != nil && mult != nil && divide != nil && get != nil && in != nil && empty != nil && jp.rx != nil && rxa != nil
 //@     && has != nil && exists != nil && length != nil && count != nil && match != nil && search != nil && group != nil
 
+// same(left, right) is Go's == on two interface values guarded against uncomparable dynamic types (reflect): assumed to be
+// a deterministic function of its operands that agrees with == on the scalar kinds the normaliser produces.
 //@ func same
 //@   trusted
+//@   ensures result == uf("same", left, right)
+//@   ensures isint64(left) && isint64(right) ==> result == (anyint(left) == anyint(right))
+//@   ensures isfloat64(left) && isfloat64(right) ==> result == feq(anyfloat(left), anyfloat(right))
+//@   ensures isbool(left) && isbool(right) ==> result == (anybool(left) == anybool(right))
+//@   ensures (isint64(left) && isfloat64(right)) || (isfloat64(left) && isint64(right)) ==> !result
+
+// Typed comparison semantics of the filter operators (C12): numbers compare by value across int64 and float64 (the
+// integer is converted to float64), strings lexically, every other pairing of kinds is false.
+//@ pred NumLt(l, r) = (isint64(l) && isint64(r) && anyint(l) < anyint(r)) || (isint64(l) && isfloat64(r) && float64(anyint(l)) < anyfloat(r))
+//@     || (isfloat64(l) && isint64(r) && anyfloat(l) < float64(anyint(r))) || (isfloat64(l) && isfloat64(r) && anyfloat(l) < anyfloat(r))
+//@ pred NumLe(l, r) = (isint64(l) && isint64(r) && anyint(l) <= anyint(r)) || (isint64(l) && isfloat64(r) && float64(anyint(l)) <= anyfloat(r))
+//@     || (isfloat64(l) && isint64(r) && anyfloat(l) <= float64(anyint(r))) || (isfloat64(l) && isfloat64(r) && anyfloat(l) <= anyfloat(r))
+//@ pred CmpLt(l, r) = NumLt(l, r) || (isstring(l) && isstring(r) && anystr(l) < anystr(r))
+//@ pred CmpLe(l, r) = NumLe(l, r) || (isstring(l) && isstring(r) && anystr(l) <= anystr(r))
+// == : identical scalars, or an int64 and a float64 with the same value; != is its complement for every pair of operands.
+//@ pred CmpEq(l, r) = uf("same", l, r) || (isint64(l) && isfloat64(r) && feq(float64(anyint(l)), anyfloat(r)))
+//@     || (isfloat64(l) && isint64(r) && feq(anyfloat(l), float64(anyint(r))))
+//@ pred Truthy(x) = isbool(x) && anybool(x)
 
 //@ func normalize
 //@   opt props = C12
@@ -229,6 +249,7 @@ package jp
 //@ func evalStack
 //@   opt props = C12
 //@   opt wrap = data
+//@   opt whole = true
 //@   requires OpsInit(0)
 //@   modifies heap(sstack)
 //@   loop 0
@@ -236,3 +257,32 @@ package jp
 //@     variant i + 1
 //@   loop 1
 //@     invariant true
+// Operator cells: the truth value written to sstack[i] for the operands left = sstack[i+1], right = sstack[i+2]
+// (the entry assumption is an obligation of the whole-function pass, where the loop invariant provides it).
+//@   region opEq = case eq.code
+//@     assume 0 <= i && i < len(sstack)
+//@     assert [C12 eq] isbool(sstack[i]) && anybool(sstack[i]) == CmpEq(left, right)
+//@   region opNeq = case neq.code
+//@     assume 0 <= i && i < len(sstack)
+//@     assert [C12 neq] isbool(sstack[i]) && anybool(sstack[i]) == !CmpEq(left, right)
+//@   region opLt = case lt.code
+//@     assume 0 <= i && i < len(sstack)
+//@     assert [C12 lt] isbool(sstack[i]) && anybool(sstack[i]) == CmpLt(left, right)
+//@   region opGt = case gt.code
+//@     assume 0 <= i && i < len(sstack)
+//@     assert [C12 gt] isbool(sstack[i]) && anybool(sstack[i]) == CmpLt(right, left)
+//@   region opLte = case lte.code
+//@     assume 0 <= i && i < len(sstack)
+//@     assert [C12 lte] isbool(sstack[i]) && anybool(sstack[i]) == CmpLe(left, right)
+//@   region opGte = case gte.code
+//@     assume 0 <= i && i < len(sstack)
+//@     assert [C12 gte] isbool(sstack[i]) && anybool(sstack[i]) == CmpLe(right, left)
+//@   region opOr = case or.code
+//@     assume 0 <= i && i < len(sstack)
+//@     assert [C12 or] isbool(sstack[i]) && anybool(sstack[i]) == (Truthy(left) || Truthy(right))
+//@   region opAnd = case and.code
+//@     assume 0 <= i && i < len(sstack)
+//@     assert [C12 and] isbool(sstack[i]) && anybool(sstack[i]) == (Truthy(left) && Truthy(right))
+//@   region opNot = case not.code
+//@     assume 0 <= i && i < len(sstack)
+//@     assert [C12 not] isbool(sstack[i]) && anybool(sstack[i]) == !Truthy(left)
